@@ -49,13 +49,25 @@ func strOrHot() *rapid.Generator[gen.Item] {
 	})
 }
 
+// renamed: now and then the template name is changed between the renders on one wrapper.
+func renamed(t *rapid.T) []gen.Str {
+	if !gen.Rarely(t, "rename", 6) {
+		return nil
+	}
+	var out []gen.Str
+	for i, n := 0, rapid.IntRange(1, 3).Draw(t, "nnames"); i < n; i++ {
+		out = append(out, gen.Str(rapid.SampledFrom([]string{"", "t", "report", "x y", "tabular-table", "t"}).Draw(t, "tname")))
+	}
+	return out
+}
+
 func caseGen() *rapid.Generator[Case] {
 	max := 8
 	if h.Thorough() {
 		max = 14
 	}
 	sg := gen.ScriptGen(gen.ScriptOpts{
-		AllowProps: true, AllowRowErr: true, Item: strOrHot(),
+		AllowProps: true, AllowRowErr: true, MultiHdr: true, Item: strOrHot(),
 		MinOps:     0,
 		MaxOps:     max,
 		MaxCells:   4,
@@ -82,6 +94,7 @@ func caseGen() *rapid.Generator[Case] {
 			Class:    opt(t, "class"),
 			Caption:  opt(t, "caption"),
 			TmplName: opt(t, "tmpl"),
+			Names:    renamed(t),
 			Gens:     rapid.SliceOfN(rapid.SampledFrom([]int{0, 1, 2, 0, 1, 2, 0, 1, 2, 3}), 1, 3).Draw(t, "gens"),
 		}
 	})
